@@ -28,7 +28,9 @@ ASSUMPTIONS = ['file names are fresh (16 random bytes)', 'POSIX (os.linesep == "
                'counters: that the number incr / decr returns is the value stored from then on (or the call raises and the previous number stays) is decided by '
                'the counters monitor only; the model store/fetch has no read-modify-write entry point',
                'later lookups: that a lookup is independent of what the caller did to the objects of earlier lookups / stores (the model fetch is a function of the '
-               'row and the file alone) is decided by the mutated_results monitor only']
+               'row and the file alone) is decided by the mutated_results monitor only',
+               'rolled-back blocks: that a transact() block left by an exception leaves every stored value (row AND value file) as it was is decided by the '
+               'rolled_back_removals monitor only; the model store/fetch has no transaction blocks']
 
 BIG = 2 ** 15
 
@@ -1469,6 +1471,189 @@ def mut_make(ctx_scratch, container, m, protocol):
     return ep_make(ctx_scratch, container, m, protocol)
 
 
+# ---------------------------------------------------------------------------------------------------------------
+# Later lookups after a transaction block that was ROLLED BACK: what a rolled-back block did never happened, so a value stored before
+# the block and removed / pulled / overwritten inside it is still stored afterwards, and every lookup returns it -- whatever its storage
+# path (inline, bytes file, text file, pickle file).
+
+class _Boom(Exception):
+    pass
+
+
+RB_CALL_SECONDS = 8          # peek / pull / peekitem retry for ever on a row whose value file is gone: every accessor call is bounded
+
+
+def _rb_cache(o):
+    return {'removers': {
+        'pop': lambda o, k, w: o.pop(k),
+        'pop(expire_time,tag)': lambda o, k, w: o.pop(k, expire_time=True, tag=True),
+        'del': lambda o, k, w: o.__delitem__(k),
+        'delete': lambda o, k, w: o.delete(k),
+        'pull': lambda o, k, w: o.pull(),
+        'pull(back)': lambda o, k, w: o.pull(side='back'),
+        'set-other': lambda o, k, w: o.set(k, w),
+        'clear': lambda o, k, w: o.clear(),
+        'get-only': lambda o, k, w: o.get(k)},
+        'readers': [('get', lambda o, k: o.get(k, default=_MISSING)), ('[]', lambda o, k: o[k]), ('peekitem', lambda o, k: o.peekitem()[1]),
+                    ('peek', lambda o, k: o.peek(default=(None, _MISSING))[1]), ('get(read=True)', lambda o, k: _handle_value(o.get(k, default=_MISSING, read=True))),
+                    ('pull', lambda o, k: o.pull(default=(None, _MISSING))[1])]}
+
+
+def _rb_deque(o):
+    return {'removers': {
+        'pop': lambda o, k, w: o.pop(),
+        'popleft': lambda o, k, w: o.popleft(),
+        'del[0]': lambda o, k, w: o.__delitem__(0),
+        '[0]=other': lambda o, k, w: o.__setitem__(0, w),
+        'clear': lambda o, k, w: o.clear(),
+        'rotate+pop': lambda o, k, w: (o.append(w), o.rotate(1), o.pop(), o.pop())},
+        'readers': [('[0]', lambda o, k: o[0]), ('[-1]', lambda o, k: o[-1]), ('peek', lambda o, k: o.peek()), ('peekleft', lambda o, k: o.peekleft()),
+                    ('iter', lambda o, k: list(o)[0]), ('pop', lambda o, k: o.pop())]}
+
+
+def _rb_index(o):
+    return {'removers': {
+        'pop': lambda o, k, w: o.pop(k),
+        'pull': lambda o, k, w: o.pull(),
+        'popitem': lambda o, k, w: o.popitem(),
+        'popitem(last=False)': lambda o, k, w: o.popitem(last=False),
+        'del': lambda o, k, w: o.__delitem__(k),
+        '[]=other': lambda o, k, w: o.__setitem__(k, w),
+        'clear': lambda o, k, w: o.clear()},
+        'readers': [('[]', lambda o, k: o[k]), ('get', lambda o, k: o.get(k, _MISSING)), ('values', lambda o, k: list(o.values())[0]),
+                    ('peekitem', lambda o, k: o.peekitem()[1]), ('popitem', lambda o, k: o.popitem()[1])]}
+
+
+RB_CONTAINERS = {'Cache': _rb_cache, 'FanoutCache': _rb_cache, 'Deque': _rb_deque, 'Index': _rb_index}
+RB_SHAPES = ['plain', 'nested', 'after-store']     # the removal alone in the block; inside an inner block that completes; after another store in the block
+
+
+def rb_values(m):
+    """one value per storage path at lengths around the threshold m"""
+    out = [5, 'sm', (1, 'two')]
+    for n in (m - 1, m, m + 3):
+        out += [bytes((i * 7) % 251 for i in range(n)), 'x' * n, 'é' * n]
+    out += [('t', 'u' * (m + 2), [1, 2.5]), {'k': list(range(m // 3 + 2))}, ['q' * m, b'r' * m]]
+    return out
+
+
+def rollback_case(mkdir, p):
+    """One scenario p = {container, remover, shape, min_file_size, value_index}: the value is stored (Cache: under a queue key, so that
+    pull / peek reach it; Deque: appended; Index: under a key), then a transact() block removes / pulls / overwrites it and raises; the
+    exception leaves the block (ROLLBACK).  Afterwards every non-removing accessor, then a removing one, must return the stored value.
+    -> (problems [(sig, text)], info)"""
+    import callguard
+    container, m = p['container'], p['min_file_size']
+    v = rb_values(m)[p['value_index']]
+    other = ('another value', p['value_index'])
+    d = mkdir()
+    kw = dict(disk_min_file_size=m, eviction_policy='none')
+    if container == 'FanoutCache':
+        o = diskcache.FanoutCache(d, shards=1, **kw)
+        closer = o
+    elif container == 'Cache':
+        o = closer = diskcache.Cache(d, **kw)
+    else:
+        closer = diskcache.Cache(d, **kw)
+        o = getattr(diskcache, container).fromcache(closer)
+    table = RB_CONTAINERS[container](o)
+    remover = table['removers'][p['remover']]
+    problems = []
+    info = {'file_backed': False, 'rolled_back': False}
+    try:
+        if container == 'Cache':
+            key = o.push(v)                         # one item: the queue's only one and the cache's only one
+        elif container == 'FanoutCache':
+            key = 'k'
+            o.set(key, v)
+        elif container == 'Deque':
+            key = 0
+            o.append(v)
+        elif p['remover'] == 'pull':
+            key = o.push(v)                         # (Index.pull takes queue items)
+        else:
+            key = 'k'
+            o[key] = v
+        if container == 'FanoutCache' and p['remover'] in ('pull', 'pull(back)'):
+            return [], info                         # (FanoutCache has no queue calls)
+        info['file_backed'] = any(f != 'cache.db' and not f.startswith('cache.db-') for _, _, fs in os.walk(d) for f in fs)
+        try:
+            with o.transact():
+                if p['shape'] == 'after-store':
+                    if container == 'Deque':
+                        o.appendleft(other)
+                        o.popleft()
+                    elif container == 'Index':
+                        o['other-key'] = other
+                    else:
+                        o.set('other-key', other)
+                if p['shape'] == 'nested':
+                    with o.transact():
+                        remover(o, key, other)
+                else:
+                    remover(o, key, other)
+                raise _Boom()
+        except _Boom:
+            info['rolled_back'] = True
+        except Exception as e:  # noqa
+            info['rolled_back'] = True                       # whatever exception leaves the block rolls it back
+            info['skipped'] = repr(e)[:80]
+        what = ('%s (min_file_size %d): %s stored, then `with transact(): %s%s; raise` -- the exception left the block, the block is rolled back'
+                % (container, m, short(v), {'plain': '', 'nested': 'with transact(): ', 'after-store': 'store another key; '}[p['shape']], p['remover']))
+        for name, read in table['readers']:
+            if container == 'FanoutCache' and name in ('peekitem', 'peek', 'pull'):
+                continue
+            try:
+                with callguard.bounded(RB_CALL_SECONDS, name):
+                    got = read(o, key)
+            except callguard.CallDidNotReturn:
+                problems.append(('call_did_not_return_after_rollback', what + '; afterwards %s did not return within %d s' % (name, RB_CALL_SECONDS)))
+                break
+            except Exception as e:  # noqa
+                problems.append(('lost_after_rollback', what + '; afterwards %s raises %s(%s)' % (name, type(e).__name__, str(e)[:60])))
+                break
+            if got is _MISSING:
+                problems.append(('lost_after_rollback', what + '; afterwards %s reports the key missing' % name))
+                break
+            if not same(got, v):
+                problems.append(('changed_after_rollback', what + '; afterwards %s returns %s' % (name, short(got))))
+                break
+    finally:
+        try:
+            closer.close()
+        except Exception:  # noqa
+            pass
+    return problems, info
+
+
+def rolled_back_removals(ctx, res, stats, thorough):
+    st = stats.setdefault('rolled_back_removals', {'cases': 0, 'file_backed': 0, 'skipped': 0})
+    seen = set()
+    n = 0
+    for m in ([8, 64] if not thorough else [1, 8, 64, BIG]):
+        nv = len(rb_values(m))
+        for container, mk in sorted(RB_CONTAINERS.items()):
+            removers = sorted(mk(None)['removers'])
+            for ri, remover in enumerate(removers):
+                for vi in range(nv):
+                    n += 1
+                    if not thorough and (n + ctx.seed) % 3 and not (vi >= 3 and (vi + ri) % 4 == 0):
+                        continue
+                    p = {'check': 'rolled_back_removal', 'container': container, 'remover': remover, 'shape': RB_SHAPES[(n + vi) % 3],
+                         'min_file_size': m, 'value_index': vi}
+                    problems, info = rollback_case(lambda: ctx.scratch('c01rb'), p)
+                    st['cases'] += int(info['rolled_back'])
+                    st['file_backed'] += int(info['file_backed'] and info['rolled_back'])
+                    st['skipped'] += int('skipped' in info)
+                    res.count(['rolled-back', container, remover, p['shape'], m, vi], nontrivial=info['rolled_back'])
+                    for sig, text in problems[:1]:
+                        if (sig, container) not in seen:
+                            seen.add((sig, container))
+                            res.violations.append(fw.Violation(sig, text, dict(p)))
+                    if sum(1 for s, _ in seen if s.startswith('call_did_not_return')) >= 2:
+                        return
+
+
 def witnesses(res):
     """Replay the witnesses of the findings listed for C01 on the implementation."""
     import tempfile, shutil
@@ -1522,7 +1707,10 @@ def run(ctx, big_budget=False):
                 'keys (two elements of a Deque / queue) through a rotating storing entry point of every container (also a JSONDisk cache and the containers '
                 'a FanoutCache / DjangoCache hands out) x min_file_size {8,32768} (thorough: 0 too) x protocols; the caller then changes its own objects in '
                 'place and changes every object a lookup hands back; every non-removing accessor looks up the first key twice and the second once, then two '
-                'removing accessors: each result equals the value as it was stored.')
+                'removing accessors: each result equals the value as it was stored.  Rolled-back blocks: a value of every storage path (inline, bytes / text / '
+                'pickle file; lengths min_file_size+{-1,0,3}, min_file_size {8,64} (thorough: 1 and 32768 too)) is stored in a Cache (as a queue item), a '
+                'FanoutCache, a Deque or an Index; a transact() block then pops / pulls / deletes / overwrites / clears it (alone, inside an inner block, after '
+                'another store) and raises; afterwards every non-removing accessor and then a removing one return the stored value.')
     import time as _t
     t0 = _t.time()
     stats = {'rejected': {}, 'kinds': {}, 'file_backed': 0, 'accessor_calls': 0}
@@ -1561,6 +1749,10 @@ def run(ctx, big_budget=False):
     res.extra['timing']['mutated_results_s'] = round(_t.time() - t2, 1)
     res.extra['mutated_results'] = stats.get('mutated_results')
     t2 = _t.time()
+    rolled_back_removals(ctx, res, stats, thorough)
+    res.extra['timing']['rolled_back_removals_s'] = round(_t.time() - t2, 1)
+    res.extra['rolled_back_removals'] = stats.get('rolled_back_removals')
+    t2 = _t.time()
     overlapping_stores(ctx, res, stats, thorough)
     res.extra['timing']['overlapping_stores_s'] = round(_t.time() - t2, 1)
     res.extra['overlapping_stores'] = stats.get('overlapping_stores')
@@ -1589,6 +1781,16 @@ def replay(payload):
             return not problems
         finally:
             env.close()
+            shutil.rmtree(d, ignore_errors=True)
+    if case.get('check') == 'rolled_back_removal':
+        d = tempfile.mkdtemp(prefix='c01r-')
+        try:
+            problems, info = rollback_case(lambda: tempfile.mkdtemp(prefix='rb-', dir=d), case)
+            print(info)
+            for sig, desc in problems:
+                print(sig, desc)
+            return not problems
+        finally:
             shutil.rmtree(d, ignore_errors=True)
     if case.get('check') == 'counter':
         d = tempfile.mkdtemp(prefix='c01r-')
